@@ -27,7 +27,7 @@ import os
 import sys
 
 sys.path.insert(0, os.path.dirname(os.path.dirname(os.path.abspath(__file__))))
-from pyexpr import Untranslatable, find_def  # noqa: E402
+from pyexpr import Untranslatable, find_def, resolve_const  # noqa: E402
 import skeleton  # noqa: E402
 
 REL = 'searchkit/utils.py'
@@ -64,6 +64,13 @@ class PathEval:
                 return self.env[e.id]
             if e.id == 'key':
                 return ('comp', [('V', 'key')])
+            # a literal behind a module-level constant is the same literal
+            try:
+                lit = resolve_const(self.tree, e)
+            except Untranslatable:
+                lit = None
+            if isinstance(lit, ast.Constant) and isinstance(lit.value, str):
+                return self.ev(lit)
             raise Untranslatable(f"unknown name {e.id!r} in a path")
         if isinstance(e, ast.Attribute) and U(e.value) == 'self':
             if e.attr in self.selfvals:
@@ -359,15 +366,21 @@ def generate(repo):
         fn = find_def(tree, 'MPCacheSimple.get')
         mx = [n for n in ast.walk(fn) if isinstance(n, ast.Assign)
               and U(n.targets[0]) == 'max_open_retry']
-        if len(mx) != 1 or not isinstance(mx[0].value, ast.Constant) or \
-                not isinstance(mx[0].value.value, int):
-            raise Untranslatable("max_open_retry literal")
+        if len(mx) != 1:
+            raise Untranslatable("max_open_retry: one assignment expected")
+        mxv = resolve_const(tree, mx[0].value)
+        if not isinstance(mxv, ast.Constant) or \
+                not isinstance(mxv.value, int) or isinstance(mxv.value, bool):
+            raise Untranslatable("max_open_retry is not an integer constant")
         sl = [n for n in ast.walk(fn) if isinstance(n, ast.Call)
               and U(n.func) == 'time.sleep']
-        if len(sl) != 1 or len(sl[0].args) != 1 or \
-                not isinstance(sl[0].args[0], ast.Constant) or \
-                not isinstance(sl[0].args[0].value, int):
-            raise Untranslatable("time.sleep literal")
+        if len(sl) != 1 or len(sl[0].args) != 1:
+            raise Untranslatable("one time.sleep(<n>) expected")
+        slv = resolve_const(tree, sl[0].args[0])
+        if not isinstance(slv, ast.Constant) or \
+                not isinstance(slv.value, int) or isinstance(slv.value, bool):
+            raise Untranslatable("time.sleep argument is not an integer "
+                                 "constant")
         tests = [U(n.test) for n in ast.walk(fn) if isinstance(n, ast.If)]
         if 'attempt > max_open_retry' not in tests:
             raise Untranslatable("retry bound test")
@@ -377,9 +390,9 @@ def generate(repo):
         if len(incs) != 1:
             raise Untranslatable("attempt += 1")
         defs.append(f"Definition GET_MAX_OPEN_RETRY : Z := "
-                    f"{mx[0].value.value}.")
+                    f"{mxv.value}.")
         defs.append(f"Definition GET_RETRY_SLEEP : Z := "
-                    f"{sl[0].args[0].value}.")
+                    f"{slv.value}.")
     item('MPCacheSimple.get retry parameters', retry)
 
     text = ("(* GENERATED from the repository working tree by "
